@@ -19,7 +19,7 @@ fn verdict(ctx: &Ctx, p: &str, sweep: &str, i: u64, shape: &str, cmd: &Cmd, want
     }
 }
 pub fn run_c01(ctx: &Ctx) {
-    let curve = Curve::new(); let w = bip39::words();
+    let curve = Curve::new();
     let mut cases: Vec<(String, String)> = Vec::new();
     for n in 0..=40usize { for k in 0..6u64 { let mut idx: Vec<usize> = (0..n).map(|j| (mix(ctx.seed ^ k, (n * 64 + j) as u64) % 2048) as usize).collect();
         if bip39::entropy_len_for_words(n).is_some() && k % 2 == 0 { idx[n - 1] = bip39::complete_last(&idx[..n - 1], idx[n - 1]); }
